@@ -223,6 +223,10 @@ func ParseSearchQueryPlaceholdersSettings(statement sqlparser.Statement, schemaS
 			case *sqlparser.SubstrExpr:
 				colName = expr.Name
 			}
+			// something else than a column on the left side (<value> = <column>, function call, ...)
+			if colName == nil {
+				return true, nil
+			}
 
 			columnInfo, err := FindColumnInfo(tableExps, colName, schemaStore)
 			if err != nil {
